@@ -494,6 +494,57 @@ def check_oct_export(chk, prog, model):
     chk.rule('C20.oct-export', 'key2jwk raw keys: k encodes exactly the bytes fread() returned', n, bad, floor=2)
 
 
+def check_generate_ints(chk, prog):
+    """jwt-generate -c i:name=value: the number parsed from the command line reaches the claim setter at full width (a value cut to 32
+    bits gives a token whose exp/nbf the verifier judges differently from what was asked for)"""
+    unit = 'tools/jwt-generate.c'
+    u = prog.unit(unit)
+    main = u.funcs.get('main')
+    if main is None:
+        raise AnalysisBroken('tools/jwt-generate.c: main not found')
+    PARSERS = ('strtol', 'strtoll', 'strtoul', 'strtoull', 'atol', 'atoll', 'strtoimax')
+    WIDE = ('long', 'unsigned long', 'long long', 'unsigned long long', 'intmax_t', 'int64_t', 'uint64_t', 'json_int_t', 'time_t', 'size_t', 'ssize_t')
+
+    def wide(t):
+        q = ((t or {}).get('desugaredQualType') or (t or {}).get('qualType') or '').replace('const ', '').strip()
+        return q in WIDE
+
+    def has_parser(n):
+        return any(y.get('kind') == 'CallExpr' and _strip(y['inner'][0]).get('referencedDecl', {}).get('name') in PARSERS for y in walk(n))
+    n = 0
+    bad = 0
+    carriers = {}       # variables that receive a parsed number
+    for x in walk(main):
+        if x.get('kind') == 'VarDecl' and x.get('inner') and has_parser(x['inner'][-1]):
+            carriers[x.get('id')] = x
+        if x.get('kind') == 'BinaryOperator' and x.get('opcode') == '=' and has_parser(x['inner'][1]):
+            l = _strip(x['inner'][0])
+            if l.get('kind') == 'DeclRefExpr':
+                carriers[l['referencedDecl']['id']] = l['referencedDecl']
+    sites = [x for x in walk(main) if x.get('kind') == 'CallExpr' and _strip(x['inner'][0]).get('referencedDecl', {}).get('name') in PARSERS]
+    if not sites:
+        raise AnalysisBroken('jwt-generate: integer claim values are no longer parsed with strtol & co.')
+    for vid, d in carriers.items():
+        n += 1
+        if not wide(d.get('type')):
+            bad += 1
+            chk.add(Finding('C20.claim-int-width', unit, 'main', 'narrow-variable[%s]' % d.get('name'),
+                            'the parsed claim value is kept in %s %s: values beyond that type are cut before they reach the claim'
+                            % (d.get('type', {}).get('qualType'), d.get('name')), line=d.get('_l')))
+    for x in walk(main):
+        if x.get('kind') in ('ImplicitCastExpr', 'CStyleCastExpr') and x.get('castKind') == 'IntegralCast' and not wide(x.get('type')) \
+                and wide(x['inner'][0].get('type')):
+            src = x['inner'][0]
+            if has_parser(src) or any(y.get('kind') == 'DeclRefExpr' and y.get('referencedDecl', {}).get('id') in carriers for y in walk(src)):
+                n += 1
+                bad += 1
+                chk.add(Finding('C20.claim-int-width', unit, 'main', 'narrowing-cast',
+                                'the parsed claim value is converted to %s on its way to the claim setter' % x['type'].get('qualType'), line=x.get('_l')))
+    n += len(sites)
+    chk.rule('C20.claim-int-width', 'jwt-generate: integer claim values parsed from the command line are not narrowed before jwt_set_SET_INT',
+             n, bad, floor=1)
+
+
 def check_jwk2key(chk, prog, model):
     unit = 'tools/jwk2key.c'
     prog.func(unit, 'write_key_file')
@@ -567,6 +618,7 @@ def run(chk, prog, tier):
     chk.guard('key2jwk widths', check_key2jwk, chk, prog, model)
     chk.guard('jwk2key provenance', check_jwk2key, chk, prog, model)
     chk.guard('key2jwk raw keys', check_oct_export, chk, prog, model)
+    chk.guard('jwt-generate integers', check_generate_ints, chk, prog)
     chk.assumptions += ['behaviour of the built binaries (exit codes observed, tokens accepted, files written) is process-level and NOT decided']
     return chk.finish(
         'Structural clauses for the four tools.',
